@@ -2281,12 +2281,15 @@ class PositionsAllocator:
 
     @classmethod
     def get(cls, size: int) -> np.ndarray:
-        if size > cls._size:
-            cls._size = size * 2
-            cls._array = np.arange(cls._size, dtype=DTYPE_INT_DEFAULT)
-            cls._array.flags.writeable = False
+        # use a local reference so that a concurrent re-allocation cannot hand this caller a shorter or still-writeable array
+        array = cls._array
+        if size > len(array):
+            array = np.arange(size * 2, dtype=DTYPE_INT_DEFAULT)
+            array.flags.writeable = False
+            cls._array = array
+            cls._size = len(array)
         # slices of immutable arrays are immutable
-        return cls._array[:size]
+        return array[:size]
 
 
 def array_sample(
